@@ -303,9 +303,12 @@ def run_property(pid: str, tier: str, only: str | None = None, jobs: int | None 
         print("HARNESS-ERROR: " + e)
     for i in inconclusive:
         print("INCONCLUSIVE: " + i)
-    for hn, path, unl in violations:
+    cap = int(os.environ.get("VERIF_MAX_VIOLATION_LINES", "12"))
+    for hn, path, unl in violations[:cap]:
         print(f"  violated clauses ({hn}): " + " | ".join(unl)[:1200])
         print(f"VIOLATION property={pid} replay={path}")
+    if len(violations) > cap:
+        print(f"  ... and {len(violations) - cap} more counterexamples (replay files under replays/{pid}/)")
     try:
         import shutil
         shutil.rmtree(tmpdir, ignore_errors=True)
